@@ -41,6 +41,36 @@ pub fn dispatch(args: &[String]) -> Option<i32> {
             }
             Some(0)
         }
+        "gen-range-golden" => {
+            // vcheck gen-range-golden N SEED -> JSON lines {ast,text,probes} for node (design-time)
+            use crate::gen::range_ast as ga;
+            use crate::model::{npm, probes};
+            let n: usize = args[1].parse().unwrap();
+            let seed: u64 = args[2].parse().unwrap();
+            let mut r = runner(seed);
+            let strat = ga::pool_strategy().prop_flat_map(|pool| {
+                let mut cfg = ga::GenCfg::standard(pool.clone());
+                cfg.allow_misplaced_wild = true;
+                cfg.allow_lowerless_hyphen = true;
+                cfg.allow_empty_alt = true;
+                cfg.allow_zero_zero = false;
+                (ga::range_ast_with(cfg), crate::props::c01::extra_versions(pool))
+            });
+            // the single-token table first
+            for (op, p) in crate::props::c01::token_table() {
+                let ast = ga::RangeAst::single(ga::Alt::Simples { toks: vec![ga::Tok::Cmp { op, blanks: 0, p }], seps: vec![] });
+                let probes: Vec<String> = crate::props::c01::probe_grid().iter().step_by(3).map(|v| v.text()).collect();
+                println!("{}", serde_json::json!({"ast": ast, "text": ast.render(), "probes": probes}));
+            }
+            for _ in 0..n {
+                let (ast, extra) = strat.new_tree(&mut r).unwrap().current();
+                let sets = npm::desugar(&ast);
+                let pv = probes::probes(&crate::props::c01::interesting(&sets), &extra);
+                let probes: Vec<String> = pv.iter().filter(|v| js_safe(v)).map(|v| v.strip_build().text()).collect();
+                println!("{}", serde_json::json!({"ast": ast, "text": ast.render(), "probes": probes}));
+            }
+            Some(0)
+        }
         _ => None,
     }
 }
